@@ -392,6 +392,10 @@ class DescriptorTransaction(_TransactionBase):
 
     def _increment_parent_descriptor_version(self, proc: TransactionResult,
                                              descriptor_container: AbstractDescriptorProtocol):
+        if descriptor_container.parent_handle in self.descriptor_updates:
+            # parent is updated in this transaction anyway: its version is already incremented and it is
+            # reported once; a second entry with the same version but other content must not be published.
+            return
         parent_descriptor_container = self._mdib.descriptions.handle.get_one(
             descriptor_container.parent_handle, allow_none=True)
         if parent_descriptor_container is not None:
